@@ -86,7 +86,10 @@
                              res))))
 
 (define (hash-table-delete! ht . keys)
-  (for-each (lambda (key) (%hash-table-delete! ht key)) keys))
+  (let ((size (hash-table-size ht)))
+    (for-each (lambda (key) (%hash-table-delete! ht key)) keys)
+    ;; the number of keys that had associations
+    (- size (hash-table-size ht))))
 
 (define (hash-table-pop! ht)
   (let* ((key (car (hash-table-keys ht)))
